@@ -11,7 +11,7 @@
 """
 import re, json, os, random
 from vlib import sut, tlc, tracecheck, runner
-from checks import decmatrix, c02_history
+from checks import decmatrix, c02_history, c02_hmm
 
 SPEC = os.path.join(sut.VERIF, "specs", "viterbi")
 KEEP = {"Net", "Frame", "Result"}
@@ -130,10 +130,14 @@ def run(ctx):
     if ctx.replay and open(ctx.replay).readline().startswith("#history"):
         c02_history.replay(ctx, ctx.replay)
         return
+    if ctx.replay and open(ctx.replay).readline().startswith("#hmm"):
+        c02_hmm.replay(ctx, ctx.replay)
+        return
     if ctx.replay:
         cases = [("replay", [l for l in open(ctx.replay).read().split("\n") if l])]
     else:
         rep.notes["history_executions"] = c02_history.run_stage(ctx)
+        rep.notes["hmm_executions"] = c02_hmm.run_stage(ctx)
         model_check(ctx, quick)
         cases = []
         n_open, n_pruned = (24, 6) if quick else (140, 40)
